@@ -25,6 +25,52 @@ const LATE_OK_MS: u128 = 700;
 /// Readers never sweep longer than this on one snapshot.
 const READER_CAP_MS: u128 = 2500;
 
+/// "Never block", as bounded progress: an `apply_change` that has not returned after
+/// max(60 s, 500 x the time a fresh host needs to answer the scenario's whole probe set)
+/// is reported as a violation by a watchdog thread (the main thread cannot: it is the one
+/// that is stuck). Readers give up their snapshot after READER_CAP_MS at the latest and a
+/// single query takes milliseconds, so no load this machine can be under explains that.
+static APPLY_STARTED_MS: AtomicU64 = AtomicU64::new(0);
+static APPLY_LIMIT_MS: AtomicU64 = AtomicU64::new(60_000);
+static CURRENT_CASE: AtomicU64 = AtomicU64::new(0);
+static CURRENT_KIND: Mutex<String> = Mutex::new(String::new());
+
+fn now_ms() -> u64 {
+    use std::sync::OnceLock;
+    static T0: OnceLock<Instant> = OnceLock::new();
+    T0.get_or_init(Instant::now).elapsed().as_millis() as u64 + 1
+}
+
+fn guarded_apply(host: &mut AnalysisHost, change: Change, kind: &str) {
+    *CURRENT_KIND.lock().unwrap() = kind.to_string();
+    APPLY_STARTED_MS.store(now_ms(), Ordering::SeqCst);
+    host.apply_change(change);
+    APPLY_STARTED_MS.store(0, Ordering::SeqCst);
+}
+
+fn spawn_block_watchdog(args: &Args) {
+    let (out, shard) = (args.out.clone(), args.shard);
+    std::thread::spawn(move || loop {
+        std::thread::sleep(Duration::from_millis(500));
+        let started = APPLY_STARTED_MS.load(Ordering::SeqCst);
+        let limit = APPLY_LIMIT_MS.load(Ordering::SeqCst);
+        if started != 0 && now_ms().saturating_sub(started) > limit {
+            let kind = CURRENT_KIND.lock().map(|k| k.clone()).unwrap_or_default();
+            let case = CURRENT_CASE.load(Ordering::SeqCst);
+            let mut rep = Report::new("C12", shard);
+            rep.evaluations = 1;
+            rep.violate(
+                format!("apply-change-blocked:never-returned:{kind}"),
+                format!("apply_change ({kind}) has not returned after {} s while readers hold snapshots taken before it: the change neither cancelled them nor went ahead (limit = max(60 s, 500 x the sequential cost of the probe set))", limit / 1000),
+                json!({"kind":"concurrent-scenario","case_seed":case.to_string()}),
+            );
+            rep.notes.push("this shard's report holds only the blocked change: the thread that owns the full report is the one that is stuck".into());
+            rep.write(&out);
+            std::process::exit(0);
+        }
+    });
+}
+
 #[derive(Clone, Debug)]
 struct Rec {
     reader: usize,
@@ -169,6 +215,7 @@ fn change_between(a: &ModelWs, b: &ModelWs) -> (Change, bool) {
 }
 
 fn run_scenario(rep: &mut Report, case_seed: u64) {
+    CURRENT_CASE.store(case_seed, Ordering::SeqCst);
     let mut r = Rng::new(case_seed);
     let k = r.range(1, 6);
     let n_readers = r.range(1, 4);
@@ -176,6 +223,27 @@ fn run_scenario(rep: &mut Report, case_seed: u64) {
     // probes are fixed per scenario and valid for every version (offsets may exceed a
     // shrunken file: then both sides answer the same way, that is part of the comparison)
     let probes = Arc::new(probes_for(&versions[0], &mut r, 24));
+    // expected answers per version, sequentially, fresh hosts (timed: the bound on a blocked
+    // change is a multiple of this)
+    let t_seq = Instant::now();
+    let expected: Vec<Vec<String>> = versions
+        .iter()
+        .map(|w| {
+            let h = w.fresh();
+            let an = h.snapshot();
+            probes
+                .iter()
+                .map(|p| match panicmon::guard(|| queries::run_query(&an, &p.0, FileId(p.1), p.2)) {
+                    Outcome::Ok(Ok(a)) => a.nf,
+                    Outcome::Ok(Err(_)) => "<cancelled>".into(),
+                    Outcome::Panicked(i) => format!("<panic {}>", i.signature()),
+                })
+                .collect()
+        })
+        .collect();
+
+    let seq_ms = (t_seq.elapsed().as_millis() as u64 / versions.len() as u64).max(1);
+    APPLY_LIMIT_MS.store((500 * seq_ms).max(60_000), Ordering::SeqCst);
     let t0 = Instant::now();
     let recs: Arc<Mutex<Vec<Rec>>> = Arc::new(Mutex::new(Vec::new()));
     let stop = Arc::new(AtomicBool::new(false));
@@ -232,7 +300,7 @@ fn run_scenario(rep: &mut Report, case_seed: u64) {
     }
     // main thread: owns the host, never holds a snapshot while applying a change
     let mut host = AnalysisHost::new();
-    host.apply_change(versions[0].full_change());
+    guarded_apply(&mut host, versions[0].full_change(), "initial-load");
     let mut batched_changes = 0u64;
     let mut req_ms: Vec<u128> = vec![0];
     let mut apply_us: Vec<u128> = vec![0];
@@ -254,7 +322,7 @@ fn run_scenario(rep: &mut Report, case_seed: u64) {
         }
         let t_req = t0.elapsed().as_millis();
         let ta = Instant::now();
-        host.apply_change(change);
+        guarded_apply(&mut host, change, kinds.get(v + 1).copied().unwrap_or("change"));
         apply_us.push(ta.elapsed().as_micros());
         req_ms.push(t_req);
     }
@@ -262,7 +330,7 @@ fn run_scenario(rep: &mut Report, case_seed: u64) {
     std::thread::sleep(Duration::from_millis(2));
     stop.store(true, Ordering::SeqCst);
     // a final empty change cancels the last sweeps (as the server would on the next edit)
-    host.apply_change(Change::default());
+    guarded_apply(&mut host, Change::default(), "empty-change");
     rep.count("changes_with_several_texts_of_one_file", batched_changes);
     drop(txs);
     for h in handles {
@@ -282,23 +350,6 @@ fn run_scenario(rep: &mut Report, case_seed: u64) {
         }
         rep.see("interleaving_shapes(per version: answered/cancelled, bucketed)", shape);
     }
-
-    // expected answers per version, sequentially, fresh hosts
-    let expected: Vec<Vec<String>> = versions
-        .iter()
-        .map(|w| {
-            let h = w.fresh();
-            let an = h.snapshot();
-            probes
-                .iter()
-                .map(|p| match panicmon::guard(|| queries::run_query(&an, &p.0, FileId(p.1), p.2)) {
-                    Outcome::Ok(Ok(a)) => a.nf,
-                    Outcome::Ok(Err(_)) => "<cancelled>".into(),
-                    Outcome::Panicked(i) => format!("<panic {}>", i.signature()),
-                })
-                .collect()
-        })
-        .collect();
 
     let replay = json!({"kind":"concurrent-scenario","case_seed":case_seed.to_string(),"readers":n_readers,"changes":kinds,"versions":versions.iter().map(|w| w.to_json()).collect::<Vec<_>>()});
     let mut n_ok = 0u64;
@@ -385,6 +436,7 @@ fn main() {
     let args = Args::parse();
     let mut rep = Report::new("C12", args.shard);
     let mut r = Rng::derive(args.seed, args.shard as u64, 12);
+    spawn_block_watchdog(&args);
     let t0 = Instant::now();
     let mut n = 0u64;
     while t0.elapsed().as_secs_f64() < args.budget_s {
